@@ -29,7 +29,7 @@ EXPLANATION = (
 )
 ASSUMPTIONS = ["CPython ast parses /repo's source as the interpreter would",
                "the table of unordered-iteration sites with their commutativity argument in sa/rules/c08.py"]
-MIN_INSTANCES = {"R-08h": 30, "R-08g": 4, "R-08a": 6, "R-08b": 3, "R-08c": 5, "R-08d": 3, "R-08e": 5, "R-08f": 2}
+MIN_INSTANCES = {"R-08i": 2, "R-08h": 30, "R-08g": 4, "R-08a": 6, "R-08b": 3, "R-08c": 5, "R-08d": 3, "R-08e": 5, "R-08f": 2}
 
 
 def r08a(model, ctx):
@@ -339,10 +339,45 @@ def r08h(model, ctx):
     """the trigger machinery through which every testbench and process observes the design (pysim._PyTriggerState, the
     engine's commit and slot allocation, TickTrigger, EdgeTrigger, AsyncProcess.reset): each function is compared with its
     reference semantics by path summary (rules/reflib.py)"""
-    from .reflib import ref_rule, run_ref_file
+    from .reflib import ref_rule, run_ref_file, trigger_api
     for ref, text, fact, why in TRIGGER_REFS:
-        ref_rule(model, ctx, "R-08h", ref, text, fact, why)
+        # documented identity: chained .sample() calls equal one call with the combined arguments
+        ref_rule(model, ctx, "R-08h", ref, text, fact, why, rewrite=trigger_api)
     run_ref_file(model, ctx, "R-08h", "c08_sim")
+
+
+def r08i(model, ctx):
+    """wakers are registered once, when the design is compiled (add_signal_waker / add_memory_waker); a state object's
+    reset() — run by Simulator.reset() — must keep them: the list is created in __init__ and never replaced or emptied
+    afterwards, for signals and memories alike"""
+    R = "R-08i"
+    n = 0
+    for c in model.classes(PYSIM):
+        ms = model.class_methods(c)
+        if "add_waker" not in ms or "reset" not in ms:
+            continue
+        attrs = {unparse(x.func.value) for x in ast.walk(ms["add_waker"]) if isinstance(x, ast.Call) and
+                 isinstance(x.func, ast.Attribute) and x.func.attr in ("append", "add") and unparse(x.func.value).startswith("self.")}
+        need(attrs, f"{c.name}.add_waker: the waker collection was not found")
+        for attr in sorted(attrs):
+            n += 1
+            init = ms.get("__init__")
+            made = init is not None and any(isinstance(s_, ast.Assign) and unparse(s_.targets[0]) == attr for s_ in ast.walk(init))
+            lost = []
+            for name, fn in ms.items():
+                if name == "__init__":
+                    continue
+                for x in ast.walk(fn):
+                    if isinstance(x, ast.Assign) and any(unparse(t) == attr for t in x.targets):
+                        lost.append(f"{name}: {unparse(x)}")
+                    if isinstance(x, ast.Call) and isinstance(x.func, ast.Attribute) and x.func.attr == "clear" and \
+                            unparse(x.func.value) == attr:
+                        lost.append(f"{name}: {unparse(x)}")
+            ctx.check(made and not lost, R, f"{c.name}:{attr}:persistent", "created in __init__, never replaced or cleared",
+                      f"{c.name}.{attr[5:]} holds the wakers registered at compile time; it must be created in __init__ and survive "
+                      f"reset() (found {lost or 'no creation in __init__'}): after Simulator.reset() processes that follow this "
+                      f"object (asynchronous read ports, comb logic) are never woken again", f"{PYSIM}:{ms['reset'].lineno}")
+    need(n >= 2, f"only {n} waker collections found in pysim.py")
 
 
 def r08g(model, ctx):
@@ -690,7 +725,7 @@ def _only(rule_fn, keep):
 
 _merge = lambda c: c.startswith("_PySignalState") or c.startswith("_PyMemoryState") or c.startswith("_eval_assign_inner:Signal")
 
-RULES = [("R-08h", r08h), ("R-08g", r08g), ("R-08a", r08a), ("R-08b", r08b), ("R-08c", r08c), ("R-08d", r08d), ("R-08e", r08e),
+RULES = [("R-08i", r08i), ("R-08h", r08h), ("R-08g", r08g), ("R-08a", r08a), ("R-08b", r08b), ("R-08c", r08c), ("R-08d", r08d), ("R-08e", r08e),
          ("R-02g", _only(c02.r02g, _merge)), ("R-02f", _only(c02.r02f, lambda c: c.startswith("_FragmentCompiler"))),
          ("R-05a", c05.r05a),
          # two processes of one domain (clocked, asynchronous reset) may run in the same delta cycle: they must write the
